@@ -158,6 +158,13 @@ theorem at_most_one_accepted_merge_per_block (st : State) (a : Answers) :
   simp only [List.length_nil, Nat.zero_add]
   exact tryMerge_accepted_le_one _ _ _
 
+/-- A DEFECT OF THE CURRENT CODE, stated on the model (known finding, replayed on the real code by corpus/c30/07-…json): a GitHub
+notification (`notify_github_changed` sets `github_changed`) is forgotten when the refresh it triggers fails — the flag was cleared
+before `_update_github` and the aborted pass leaves it cleared, so later batch-only passes do not refresh and `try_to_merge` works on
+the stale view (every theorem of this file is about CI's view, which is why they still hold). -/
+theorem notification_lost_on_failed_refresh (st : State) :
+    (evGithubFailed (evFlag st .github)).githubChanged = false := rfl
+
 /-! ## "its test batch ran against the target branch's current commit" -/
 
 /-- FULL STATEMENT: a PR is merged only if the batch service has a SUCCESSFUL test batch of its head commit against the target
